@@ -456,7 +456,7 @@ func GoValue(typ int, r *prng.Rand) interface{} {
 		return CDup{A: cWord(r), B: cWord(r), C: r.Intn(9)}
 	default:
 		var head *CNode
-		for d := r.Range(150, 400); d > 0; d-- {
+		for d := r.Range(550, 900); d > 0; d-- {
 			head = &CNode{V: d, Next: head}
 		}
 		return head
